@@ -80,3 +80,6 @@ def run(repo, res, tier):
     # a pattern a dialect switches off (None) is tested before it is used: no AttributeError from the decoders
     from .. import tablerules as _tb6
     _tb6.rule_none_guard(repo, res)
+    # the caller's substitute classes are called positionally (no TypeError from a class whose parameters have other names)
+    from .. import hookrules as _hk6c
+    _hk6c.rule_hook_call(repo, res)
